@@ -41,6 +41,7 @@ type c11Event struct {
 	ID   int    `json:"id"`             // harness call number; -1 = none
 	Dead bool   `json:"dead,omitempty"` // write: the client had already closed this connection when the sender was about to write; cflag: the closed flag of the adapter's current client
 	Cur  bool   `json:"cur,omitempty"`  // write: the connection was the client's current one
+	Down bool   `json:"down,omitempty"` // enq: the call is issued while the server is down (its outcome is not judged)
 	Ms   int    `json:"ms,omitempty"`   // reply/fail: latency of the call in ms (not compared by the model)
 }
 
@@ -51,6 +52,7 @@ type c11rawEvent struct {
 	dead bool
 	cur  bool
 	ms   int
+	down bool
 	tc   *transport.TarsClient // write: the transport client whose sender wrote
 }
 
@@ -270,6 +272,34 @@ func (s *c11Server) pushConns(closeAfter bool) {
 	}
 }
 
+// goDown (mode "down") closes every connection and the listener: the endpoint refuses connections until comeUp.
+func (s *c11Server) goDown() {
+	s.closeConns()
+	s.mu.Lock()
+	ln := s.ln
+	s.mu.Unlock()
+	ln.Close()
+}
+
+// comeUp listens again on the same port.
+func (s *c11Server) comeUp() error {
+	ln, err := c11Listen(s.port)
+	if err != nil {
+		return err
+	}
+	s.mu.Lock()
+	s.ln = ln
+	stopped := s.stopped
+	s.mu.Unlock()
+	if stopped {
+		ln.Close()
+		return nil
+	}
+	s.wg.Add(1)
+	go s.acceptLoop(ln)
+	return nil
+}
+
 // restart closes the listener and every connection and listens again on the same port.
 func (s *c11Server) restart() {
 	s.mu.Lock()
@@ -469,7 +499,7 @@ func c11RunOnce(c *c11Case) ([]c11Event, string) {
 		c.Seq = 1
 	}
 	k := c.Burst * c.Seq * c11Halves(c)
-	if c.Mode == "held" || c.Mode == "pushcmd" {
+	if c.Mode == "held" || c.Mode == "pushcmd" || c.Mode == "down" {
 		k = -1 // closes / notifies on command only
 	}
 	srv, err := c11StartServer(c.Mode, k, log)
@@ -497,6 +527,9 @@ func c11RunOnce(c *c11Case) ([]c11Event, string) {
 	}
 	if c.Mode == "pushcmd" {
 		return c11RunPush(c, srv, sp, log), ""
+	}
+	if c.Mode == "down" {
+		return c11RunDown(c, srv, sp, log)
 	}
 	callNo := 0
 	for round := 0; round <= c.Rounds; round++ {
@@ -718,6 +751,59 @@ func c11RunPush(c *c11Case, srv *c11Server, sp *tars.ServantProxy, log *c11Log) 
 	return c11Canon(log)
 }
 
+// c11RunDown is the restart-with-downtime script: the server closes the connection and stops listening; once the
+// client has observed the close, Seq calls are issued while the endpoint refuses connections (their outcome is not
+// judged: the re-dial fails); the server listens again on the same port; DelayUs later Burst calls are issued, which
+// must be answered quickly and exactly once.
+func c11RunDown(c *c11Case, srv *c11Server, sp *tars.ServantProxy, log *c11Log) ([]c11Event, string) {
+	callNo := 0
+	c11OneCall(sp, log, callNo)
+	callNo++
+	for round := 0; round < c.Rounds; round++ {
+		tcs := tars.VerifC11Clients(sp)
+		if len(tcs) == 0 {
+			return c11Canon(log), ""
+		}
+		srv.goDown()
+		observed := false
+		for deadline := time.Now().Add(4 * time.Second); time.Now().Before(deadline); time.Sleep(200 * time.Microsecond) {
+			if closed, conn := transport.VerifC11Conn(tcs[0]); closed && conn != nil {
+				observed = true
+				log.add(c11rawEvent{k: "obs", id: -1, port: c11PortOf(conn.LocalAddr())})
+				break
+			}
+		}
+		for i := 0; observed && i < c.Seq; i++ {
+			id := callNo
+			callNo++
+			log.add(c11rawEvent{k: "enq", id: id, down: true})
+			t0 := time.Now()
+			err := c11Call(sp, id)
+			ms := int(time.Since(t0) / time.Millisecond)
+			if err != nil {
+				log.add(c11rawEvent{k: "fail", id: id, ms: ms})
+			} else {
+				log.add(c11rawEvent{k: "reply", id: id, ms: ms})
+			}
+		}
+		if err := srv.comeUp(); err != nil {
+			return nil, "listen again: " + err.Error() // the port was taken meanwhile: environment, not the client
+		}
+		if !observed {
+			return c11Canon(log), ""
+		}
+		if c.DelayUs > 0 {
+			time.Sleep(time.Duration(c.DelayUs) * time.Microsecond)
+		}
+		for b := 0; b < c.Burst; b++ {
+			c11OneCall(sp, log, callNo)
+			callNo++
+		}
+	}
+	time.Sleep(5 * time.Millisecond)
+	return c11Canon(log), ""
+}
+
 // c11Canon turns the raw log into the canonical trace: generations are numbered in accept order, a dial event
 // is placed before the first event that mentions the generation, ports and timestamps are dropped.
 func c11Canon(l *c11Log) []c11Event {
@@ -754,7 +840,7 @@ func c11Canon(l *c11Log) []c11Event {
 		if e.k == "dial" {
 			continue
 		}
-		out = append(out, c11Event{K: e.k, G: g, ID: e.id, Dead: e.dead, Cur: e.cur, Ms: e.ms})
+		out = append(out, c11Event{K: e.k, G: g, ID: e.id, Dead: e.dead, Cur: e.cur, Ms: e.ms, Down: e.down})
 	}
 	return out
 }
@@ -783,6 +869,10 @@ func c11Monitor(c *c11Case, evs []c11Event) map[string]string {
 	if c.Mode == "pushcmd" {
 		per, total = 0, 1+c.Rounds*len(c.OffsMs)
 	}
+	if c.Mode == "down" {
+		per, total = 0, 1+c.Rounds*(c.Seq+c.Burst)
+	}
+	down := map[int]bool{} // calls issued while the server was down: not judged
 	arrivals := map[int]int{}
 	closedByPeer := map[int]bool{}
 	lastDial := -1
@@ -815,19 +905,26 @@ func c11Monitor(c *c11Case, evs []c11Event) map[string]string {
 			if closedByPeer[e.G] && c.Mode != "push" && c.Mode != "half" {
 				out[c11SigOnce] = fmt.Sprintf("request %d arrived on connection %d after the server closed it", e.ID, e.G)
 			}
+		case "enq":
+			if e.Down {
+				down[e.ID] = true
+			}
 		case "reply":
 			finished[e.ID] = true
-			if e.Ms > c11SlowMs {
+			if e.Ms > c11SlowMs && !down[e.ID] {
 				out[c11SigSlow] = fmt.Sprintf("call %d took %d ms although the server answers at once (limit %d ms, timeout %d ms)", e.ID, e.Ms, c11SlowMs, c11TimeoutMs)
 			}
 		case "fail":
 			finished[e.ID] = true
+			if down[e.ID] {
+				continue
+			}
 			out[c11SigSlow] = fmt.Sprintf("call %d failed after %d ms (timeout %d ms) although the server answers every request", e.ID, e.Ms, c11TimeoutMs)
 		}
 	}
 	if len(finished) == total {
 		for id := 0; id < total; id++ {
-			if arrivals[id] != 1 {
+			if arrivals[id] != 1 && !down[id] {
 				out[c11SigOnce] = fmt.Sprintf("request %d arrived %d times at the server", id, arrivals[id])
 				break
 			}
@@ -891,6 +988,8 @@ func c11Run(c *c11Case) []Failure {
 			what := fmt.Sprintf("server closes by %q after %d replies, next calls %d us after the observed close", c.Mode, c.Burst*c.Seq*c11Halves(c), c.DelayUs)
 			if c.Mode == "held" {
 				what = fmt.Sprintf("send goroutine held just before its write, server closes the connection, %d further call(s) %d us after the observed close, then the goroutine is released", c.Burst, c.DelayUs)
+			} else if c.Mode == "down" {
+				what = fmt.Sprintf("server closes the connection and stops listening, %d call(s) while it is down, server listens again, %d call(s) %d us later", c.Seq, c.Burst, c.DelayUs)
 			} else if c.Mode == "pushcmd" {
 				what = fmt.Sprintf("server sends the close notification on the connection in use (closes it itself: %v), calls %v ms after the observed client swap", c.PushClose, c.OffsMs)
 			} else if c.PauseUs > 0 {
@@ -983,6 +1082,14 @@ func c11Gen(tier string, rng *rand.Rand) []c11Case {
 	for r := 0; r < 3*reps; r++ {
 		// an idle period longer than the sender's 1 s ticker on a healthy connection, then calls, then the close
 		cs = append(cs, c11Case{Mode: []string{"close", "idle", "restart"}[r%3], Burst: 1 + r%2, Seq: 1 + rng.Intn(2), DelayUs: []int{0, 1000, 50000}[rng.Intn(3)], Rounds: 1, PauseUs: 1050000 + rng.Intn(400000)})
+	}
+	for r := 0; r < 2*reps; r++ {
+		// restart with downtime: the re-dial of a call issued while the server is down fails
+		d := []int{0, 1000, 50000}[r%3]
+		if d > 0 {
+			d = d/2 + rng.Intn(d)
+		}
+		cs = append(cs, c11Case{Mode: "down", Burst: 1 + rng.Intn(3), Seq: 1 + r%2, DelayUs: d, Rounds: 2})
 	}
 	for r := 0; r < 2*reps; r++ {
 		// close notification, calls before / around / after the 500 ms grace tick of the swapped-out client
